@@ -404,8 +404,8 @@ def attridx(run, fx):
             else:
                 run.violated('OPERANDCHECK', inst, fn.loc(e), 'the attribute-limit table is indexed with the bytecode operand `%s` although no dominating valid_upto(gr_slatMax, %s) has '
                              'succeeded: an attribute number beyond the table reads (on the loader\'s stack) past its end; the font is rejected afterwards, the read has happened' % (ix, ix))
-    if n < 3:
-        run.broken('OPERANDCHECK', 'attrid subscripts', 'expected the three attrid[] subscripts of the decoder, found %d' % n)
+    if n < 1:
+        run.broken('OPERANDCHECK', 'attrid subscripts', 'no attrid[] subscript found in the decoder (three on the pinned tree; arms may be merged)')
 
 
 def narrowinit(run, fx):
